@@ -123,6 +123,9 @@ def r1_field_reads(ctx):
             ctx.violation('R1', f'{f.module.relpath}:{w.lineno}', f.qualname, f'option-assigned:{name}',
                           f'`{src(w)[:60]}` assigns an option field on the export path: later cells see other options than earlier ones')
         allowed = ALLOWED_READS.get(name)
+        if allowed is None and reads and not ctx.prog.is_anchor(f):
+            raise AnalysisError(f'{f.loc}: the new helper {name} reads option fields {sorted(reads)} and is not inlined into its caller: which '
+                                f'transformation those reads belong to is not followed')
         if allowed is None:
             ctx.check(not reads, 'R1', f.loc, f.qualname, f'unexpected-option-reader:{name}',
                       f'{name} reads no option field', f'{name} reads option fields {sorted(reads)}')
@@ -147,6 +150,9 @@ def r1_null_rows_after_gates(ctx):
     inner = [s for s in lp.body if isinstance(s, ast.For)]
     # the test that decides whether the finished row is kept: the `if` that guards rows.append(...)
     tests = [s for s in lp.body if isinstance(s, ast.If) and any(isinstance(x, ast.Call) and src(x.func) == 'rows.append' for b_ in s.body for x in ast.walk(b_))]
+    if len(inner) != 1 or len(tests) != 1:
+        raise AnalysisError(f'{es.loc}: the stage loop of export_string is not `cells loop, then row test` as direct statements '
+                            f'({len(inner)} cell loops, {len(tests)} row tests): not followed')
     ok = len(inner) == 1 and len(tests) == 1 and lp.body.index(tests[0]) > lp.body.index(inner[0])
     reads = {a.attr for a in ast.walk(tests[0]) if isinstance(a, ast.Attribute) and F.is_name(a.value, 'options')} if tests else set()
     ctx.check(ok and not reads, 'R1', f'{es.module.relpath}:{lp.lineno}', es.qualname, 'null-rows-after-gates',
